@@ -50,7 +50,6 @@ Chr(t) == CASE t = "P" -> "PHYSICS" [] t = "A" -> "ANY" [] t = "p" -> "process" 
 RECURSIVE Str(_)
 Str(s) == IF s = <<>> THEN "" ELSE Chr(Head(s)) \o Str(Tail(s))
 
-RunTypeName(t) == Chr(t)
 IsEnum(seg) == Len(seg) = 1 /\ seg[1] \in Enum       \* side condition on the table, checked by the driver
 IsBool(seg) == seg \in {<<"t">>, <<"0">>}            \* strconv.ParseBool accepts "true" and "0"; side condition checked by the driver
 BoolOf(seg) == seg = <<"t">>
